@@ -471,3 +471,78 @@ def crashsup_bin():
                 log("FATAL: cannot compile crashsup:", p.stderr.decode()); sys.exit(2)
             os.rename(out + ".tmp", out)
     return out
+
+
+# ---------------------------------------------------------------- engine B: scripted map-iteration worlds
+
+def maporder_goroot():
+    """A private copy of the Go toolchain whose runtime takes every map hash seed and iteration offset from a
+    deterministic sequence selected by $VERIF_MAPWORLD (0/unset = the real random source). Building garble with it gives
+    a garble binary whose own map iteration orders are scripted and replayable; the programs it compiles are unaffected."""
+    d = os.path.join(CACHE, "goroot-mapworld")
+    with lock(d + ".lock"):
+        if os.path.exists(os.path.join(d, "ok")):
+            return d
+        shutil.rmtree(d, ignore_errors=True)
+        subprocess.run(["cp", "-a", GOROOT_TC, d], check=True)
+        subprocess.run(["chmod", "-R", "u+w", d], check=True)
+        p = os.path.join(d, "src/internal/runtime/maps/runtime.go")
+        s = read(p)
+        old = "//go:linkname rand\nfunc rand() uint64\n"
+        if old not in s:
+            log("FATAL: cannot patch internal/runtime/maps/runtime.go (layout changed)"); sys.exit(2)
+        s = s.replace(old, '''//go:linkname runtimeRand
+func runtimeRand() uint64
+
+// VerifWorld selects a scripted source for map seeds and iteration offsets (verification harness).
+var VerifWorld uint64
+
+var verifCounter uint64
+
+func rand() uint64 {
+	if VerifWorld == 0 {
+		return runtimeRand()
+	}
+	verifCounter++
+	x := VerifWorld*0x9E3779B97F4A7C15 + verifCounter*0xBF58476D1CE4E5B9
+	x ^= x >> 31
+	x *= 0x94D049BB133111EB
+	x ^= x >> 29
+	return x
+}
+''')
+        write(p, s)
+        p = os.path.join(d, "src/runtime/rand.go")
+        s = read(p)
+        if "//go:linkname maps_rand internal/runtime/maps.rand\n" not in s:
+            log("FATAL: cannot patch runtime/rand.go"); sys.exit(2)
+        write(p, s.replace("//go:linkname maps_rand internal/runtime/maps.rand\n", "//go:linkname maps_rand internal/runtime/maps.runtimeRand\n"))
+        p = os.path.join(d, "src/runtime/proc.go")
+        s = read(p)
+        if "\tgoenvs()\n" not in s:
+            log("FATAL: cannot patch runtime/proc.go"); sys.exit(2)
+        write(p, s.replace("\tgoenvs()\n", "\tgoenvs()\n\tif n, err := strconv.ParseInt(gogetenv(\"VERIF_MAPWORLD\"), 10, 64); err == nil && n > 0 {\n\t\tmaps.VerifWorld = uint64(n)\n\t}\n", 1).replace("\t\"internal/strconv\"\n", "\t\"internal/runtime/maps\"\n\t\"internal/strconv\"\n", 1))
+        write(os.path.join(d, "ok"), "")
+    return d
+
+
+def build_garble_mapworld(repo=None):
+    """garble built from the working tree with the map-world toolchain."""
+    repo = repo or REPO
+    root = maporder_goroot()
+    th = tree_hash(repo, b"mapworld")
+    out = os.path.join(CACHE, "garble", th, "garble-mapworld")
+    with lock(os.path.join(CACHE, "garble", th + ".lock")):
+        if os.path.exists(out):
+            return out
+        os.makedirs(os.path.dirname(out), exist_ok=True)
+        e = build_env()
+        e["PATH"] = root + "/bin:" + e["PATH"]
+        e["GOROOT"] = root
+        e["GOCACHE"] = mkdir(CACHE, "gobuild-mapworld")
+        p = run(["go", "build", "-o", out + ".tmp", "."], cwd=repo, env=e, timeout=1800)
+        if p.returncode != 0:
+            sys.stderr.write(p.stderr.decode(errors="replace")[-3000:])
+            log("FATAL: cannot build garble with the map-world toolchain"); sys.exit(2)
+        os.rename(out + ".tmp", out)
+    return out
